@@ -390,7 +390,7 @@ func genSpell(r *rand.Rand) *spell {
 }
 
 var badTimes = []string{"abc", "12x", "1.2.3", "12345678901234567890", "2024-13-01T00:00:00Z", " 123", "123 ", "0x10", "2024-01-01", "10:00", "1,5", "--5", "1700000000s", "now"}
-var goodSince = []string{"6h", "1d", "90m", "1h30m", "15s", "1w", "2d12h", "1y", "30m", "1ms", "5m30s"}
+var goodSince = []string{"6h", "1d", "90m", "1h30m", "15s", "1w", "2d12h", "1y", "30m", "1ms", "5m30s", "0s", "0ms", "0h0m", "0d", "0s"}
 var badSince = []string{"6", "h", "1h1d", "-1h", "1.5h", "abc", "1 h", "h1", "1hh", "5M"}
 var goodStep = []string{"15", "0.5", "1.5", "15s", "1m", "1h30m", "250ms", "2", "1d", "100", "0.001"}
 var badStep = []string{"abc", "1q", "7k", "--1", "1.2.3", "0", "-1", "NaN", "0s", "-5", "0.0", "m", "1 s", "-0.5", "0ms", "Inf", "-Inf"}
@@ -446,6 +446,7 @@ func genRender(r *rand.Rand) cliIn {
 	if r.Intn(5) == 0 {
 		nc = r.Intn(30)
 	}
+
 	sec := 1700000000
 	for c := 0; c < nc; c++ {
 		st := renderStream{Container: B(fmt.Sprintf("c%d", c)), Entries: [][]any{}}
